@@ -126,6 +126,10 @@ impl Out {
     pub fn fail(&mut self, i: usize, step: i64, key: &str, msg: &str, obs: Value) {
         self.emit(json!({"i": i, "ok": false, "step": step, "key": key, "msg": msg, "obs": obs}));
     }
+    /// Make everything emitted so far durable (call before a step that may never return).
+    pub fn flush(&mut self) {
+        let _ = self.w.flush();
+    }
     pub fn finish(mut self) {
         let _ = self.w.flush();
     }
